@@ -141,6 +141,17 @@ CHECKS = {
              "Tr[(sum N_j F_j)^-1] (+ implied-element term), independent of N. matrix_util helpers (calc_se, calc_direct_sum, calc_conjugate, calc_covariance_mat, calc_left_inv). "
              "NOT claimed: larger N / systems, asymptotic statements, the simulation-side Monte-Carlo comparisons.",
         design_ref="DESIGN.md 3/C19"),
+    "C15": dict(
+        technique="symbolic execution of the real serial simulation entry points with every PRNG draw a fresh symbol of its stream (contract stubs for numpy.random / multinomial.rvs) + data-flow claims decided per path; symbolic depolarising rate and base object with a spectral parametrisation of the channel's Choi matrix",
+        category="other",
+        text="PARTIAL coverage of C15, the part a solver can reach. Decided: (1) generate_empi_dists_and_calc_estimate / the repetition loop behind execute_simulation for 1-qubit QST/POVMT "
+             "(thorough also QPT/QMPT), n_rep 3 (thorough 2 and 4), seed given as integer / generator / None: the repetitions consume pairwise disjoint draws (are not copies), all draws "
+             "come from the designated stream, an explicit seed leaves the global stream untouched, the same integer seed reproduces the same draws and the same estimates, and re-estimation "
+             "from the stored empirical distributions reproduces the stored estimates (linear estimator). (2) DepolarizedQOperationGenerationSetting for all four object types with SYMBOLIC "
+             "rate p in [0,1] and symbolic base object (1 qubit, thorough qutrit): result == (1-p) ideal + p maximally-mixed part, and the depolarising channel passes the library's physicality "
+             "test for every p. NOT decided (outside): invariance under joblib worker counts and process scheduling, SeedSequence.spawn, pickled results and re-estimation from files, "
+             "random effective-Lindbladian generation, loss-minimisation estimators inside simulations, the built-in physicality-violation check.",
+        design_ref="DESIGN.md 3/C15, 7.7"),
     "C16": dict(
         technique="symbolic execution of the real index / distribution code (symbolic probabilities, symbolic integer indices) + z3 (LRA/NRA with division lemmas); CrossHair on index_util with symbolic shapes",
         category="other",
@@ -158,9 +169,6 @@ CHECKS = {
 }
 
 NOT_APPLICABLE = {
-    "C15": "core of the property (invariance under worker count / process scheduling via joblib, re-estimation from pickled results, "
-           "SeedSequence.spawn internals) cannot be encoded for a solver; encodable fragments (depolarising mixture, seed data-flow) ride "
-           "along in the C06/C14 checks as auxiliary obligations, not as a C15 claim",
     "C17": "finite catalogues of constants selected by name: no input for a solver to range over; deciding each entry is concrete "
            "enumeration (excluded as deciding step for this technique); the only quantified sub-claim sends a symbolic string through "
            "eval()/str.split and 39k-name lists, out of reach for CrossHair and z3 strings; expm-based agreement is behind a C kernel",
